@@ -16,8 +16,9 @@ Inductive c19case :=
 (* version-limited transfer (MigrateInstance with a uuid list): ids of the lineage of the last transmitted
    version, transmitted ids, and per datum: the entries stored in the source (all versions, key order), the
    entries found in the destination afterwards, and what source and destination answer at each transmitted
-   version; src_changed = some read of the source differed before / after the transfer *)
-| CTransfer (src_changed : bool) (path ts : list nat)
+   version; src_changed = some read of the source differed before / after the transfer;
+   mode 0 = uuid list, 1 = transmit=all (every entry copied unchanged), 2 = transmit=flatten at the one version in ts *)
+| CTransfer (mode : nat) (src_changed : bool) (path ts : list nat)
             (data : list (entries * entries * list (nat * option bytes * option bytes)))
 | CTransferFail (typ : N).
 
@@ -61,15 +62,19 @@ Definition model_ok (x : c19case) : bool :=
                       end) reads
   | COther _ _ _ => true
   | CCopyFail _ _ _ => true
-  | CTransfer src_changed path ts data =>
+  | CTransfer mode src_changed path ts data =>
     negb src_changed && ascending 0 ts &&
     forallb (fun d => match d with
                       | (es, ed, reads) =>
                         asc_es 0 es &&
-                        entries_eqb ed (transfer same_entry (onp_of path) es ts) &&
+                        entries_eqb ed (match mode with
+                                        | O => transfer same_entry (onp_of path) es ts
+                                        | S O => es
+                                        | _ => match ts with [V] => flatten_at (onp_of path) es V | _ => [] end
+                                        end) &&
                         forallb (fun r => match r with
                                           | (t, so, dd) => obytes_eqb so (src_read (onp_of path) es t)
-                                                           && obytes_eqb dd (dst_read ed t)
+                                                           && obytes_eqb dd (src_read (onp_of path) ed t)
                                           end) reads
                       end) data
   | CTransferFail _ => false
@@ -111,7 +116,7 @@ Definition spec_class (x : c19case) : nat :=
       then 0%nat else 4%nat
     | None => 4%nat
     end
-  | CTransfer src_changed path ts data =>
+  | CTransfer mode src_changed path ts data =>
     (* at every transmitted version the destination answers what the source answers; the source is unchanged *)
     if src_changed then 6%nat
     else if forallb (fun d => forallb (fun r => match r with (t, so, dd) => obytes_eqb so dd end) (snd d)) data
